@@ -57,6 +57,36 @@ theorem err_preserved_aggregate (S : Sem χ ρ ν ε κ α) (L : LimEnv ε) (sit
     ErrPreserved (aggregateT S L site env groupBy aggs) :=
   Trans.errPreserved _ (aggregateT_errFwd S L site env groupBy aggs)
 
+/-- ORDER BY checks the sort keys of EVERY collected row: a key that fails on some row makes it
+    answer exactly that error, for an input of ANY length ≥ 1 — a single row included — wherever the
+    failing row stands (an empty input evaluates no key) -/
+theorem err_preserved_orderBy_keys (S : Sem χ ρ ν ε κ α) (Q : Quirks) (hq : Q.orderByKeepsErr = false)
+    (site : Site) (env : ρ) (keys : List (χ × Bool)) (pre : List ρ) (r : ρ) (post : List ρ) (e : ε)
+    (hpre : ∀ x ∈ pre, ∃ ks, orderKeys S LimEnv.unlimited env keys x = .ok ks)
+    (hr : orderKeys S LimEnv.unlimited env keys r = .error e) :
+    (orderByT S Q LimEnv.unlimited site env keys).run ⟨[], 0, false⟩ ((pre ++ r :: post).map .ok) = [.error e] :=
+  orderBy_key_error S Q hq site env keys pre r post e hpre hr
+
+/-! ### parked failures (`Params::record_failure` / the guard's `take_failure`): a failure parked
+    while a pulled row was processed is reported — by the item the operator hands out next or, if
+    there is none, at the end of the stream -/
+
+/-- Project / Unwind (operators that never say `done`): if the `d ≥ 1` items handed out are all
+    `Ok`, nothing was pending and no pulled row parked a failure, WHEREVER the stream ends -/
+theorem park_reported_stream {σ : Type} (t : Trans σ ε ρ) (hnd : ∀ st, t.done st = false)
+    (parks : σ → Except ε ρ → Option ε) (fp : σ → Option ε) (s : PlanOps.Stream ε ρ) (st : σ)
+    (pend : Option ε) (d : Nat) (hd : d ≠ 0)
+    (h : allOk (((parkT t parks fp false).run (st, pend) s).take d) = true) :
+    pend = none ∧ parkEvents t parks fp st s d = [] :=
+  park_ok_of_never_done t hnd parks fp s st pend d hd h
+
+/-- OrderBy / Aggregate (failures are parked by the work done once the input is exhausted) -/
+theorem park_reported_block {σ : Type} (t : Trans σ ε ρ) (fp : σ → Option ε) (s : PlanOps.Stream ε ρ)
+    (st : σ) (d : Nat)
+    (h : allOk (((parkT t (fun _ _ => none) fp false).run (st, none) s).take d) = true) :
+    parkEvents t (fun _ _ => none) fp st s d = [] :=
+  park_ok_of_flush_only t fp s st d h
+
 /-! ### query level, by induction over `Plan` -/
 
 /-- for every plan, at every node and for every demand: if the items handed out are all `Ok`,
